@@ -278,7 +278,13 @@ fn mutate_in_place(r: &mut Rng, s: &mut Schema, depth: u32) -> Option<&'static s
                     return mutate_in_place(r, &mut en.variants[vi].fields[fi].value, depth + 1);
                 }
             }
-            match r.below(5) {
+            match r.below(6) {
+                5 if !en.variants.is_empty() => {
+                    // a field added to a variant, unit variants included
+                    let i = r.below(en.variants.len() as u64) as usize;
+                    en.variants[i].fields.push(Field::new(name(r), Box::new(Schema::Primitive(gen_prim(r)))));
+                    Some("variant-field-added")
+                }
                 0 => {
                     en.variants.push(Variant { name: name(r), discriminant: en.variants.len() as u8, fields: vec![] });
                     Some("variant-added")
